@@ -217,9 +217,12 @@ impl<'a> PW<'a> {
         let ops: Vec<pm::SwapOperation> = hops.iter().map(|(p, i, o)| pm::SwapOperation::MantraSwap { token_in_denom: i.clone(), token_out_denom: o.clone(), pool_identifier: p.clone() }).collect();
         let offer = funds.first().map(|c| c.amount).unwrap_or_default();
         let q: Result<pm::SimulateSwapOperationsResponse, String> = self.s.query(&self.s.pool, &pm::QueryMsg::SimulateSwapOperations { offer_amount: offer, operations: ops.clone() });
+        let cj = |v: &Vec<Coin>| v.iter().map(|c| json!({"d": self.s.dsym(&c.denom), "a": u(c.amount)})).collect::<Vec<_>>();
+        let asc = |v: &Vec<Coin>| v.windows(2).all(|p| p[0].denom < p[1].denom);
         let quote = match &q {
-            Ok(x) => json!({"ok": true, "ret": u(x.return_amount)}),
-            Err(_) => json!({"ok": false, "ret": []}),
+            Ok(x) => json!({"ok": true, "ret": u(x.return_amount), "swap_fees": cj(&x.swap_fees), "protocol_fees": cj(&x.protocol_fees), "burn_fees": cj(&x.burn_fees),
+                            "lists_sorted": asc(&x.swap_fees) && asc(&x.protocol_fees) && asc(&x.burn_fees)}),
+            Err(_) => json!({"ok": false, "ret": [], "swap_fees": [], "protocol_fees": [], "burn_fees": [], "lists_sorted": true}),
         };
         let m = pm::ExecuteMsg::ExecuteSwapOperations { operations: ops, minimum_receive: min_receive.map(Uint128::new), receiver: receiver.map(|a| a.to_string()), max_slippage: max_slip };
         let r = self.s.exec_pm_guarded(sender, &m, funds);
